@@ -140,39 +140,65 @@ typedef amg<EB, coarsening::smoothed_aggregation, relaxation::spai0> AMG_E;
 struct Out { size_t iters = 0; double res = 0; std::vector<double> x; size_t levels = 0; };
 template <class P> size_t nlevels(const P &p) { return amgcl::verif::access::levels(p).size(); }
 
+struct FOut { bool ran = false, threw = false, solved = false; size_t iters = 0; double res = 0, tv = -1; };
+typedef std::map<std::string, FOut> FMap;
+static const size_t MAXIT = 300;
+
+// All formulations on (A, f).  sfx: key suffix of a rescaled run ("" at unit scale).  unit: the outcome at unit scale (rescaled runs only):
+// a block formulation must solve the rescaled system whenever it solved the unit-scale one, and -- every component used here (smoothed
+// aggregation, spai0, ilu0, skyline_lu, fgmres, bicgstab) only compares quantities relative to others of the same row / vector, and a
+// power-of-two factor commutes with every rounding -- with bitwise the same iteration count and reported relative residual.
+static FMap solve_all(Case &c, const G5 &g, const Csr<double> &A, const std::vector<double> &f, int ce, double kappa, const std::string &sfx, const FMap *unit, size_t &maxlev) {
+    size_t n = A.n; FMap out; auto T = A.tie();
+    vf::SolveSpec sp; sp.maxiter = MAXIT; sp.explicit_res = true;
+    auto report = [&](const std::string &nm, const Out &o, vf::SolveSpec s) {
+        FOut &fo = out[nm]; fo.ran = true; fo.iters = o.iters; fo.res = o.res;
+        if (unit) { auto it = unit->find(nm); s.must_converge = s.must_converge && it != unit->end() && it->second.solved; }
+        vf::check_solution(c, nm + sfx, A, f, o.x, o.iters, o.res, s, &fo.tv); fo.solved = std::isfinite(fo.tv) && fo.tv <= 1.001e-8;
+        maxlev = std::max(maxlev, o.levels); vf::obs_add("formulations_seen", nm); vf::obs_sum(unit ? "rescaled_solves" : "solves");
+        if (unit) { auto it = unit->find(nm); if (it != unit->end() && it->second.ran && !it->second.threw)
+            c.check(it->second.iters == o.iters && it->second.res == o.res, nm + sfx + ":differs-from-unit-scale", "iteration count / reported relative residual of the power-of-two rescaled system differ from the unit-scale solve",
+                    J().n("iters", o.iters).n("iters_unit", it->second.iters).n("reported", o.res).n("reported_unit", it->second.res)); }
+        else vf::sample("solves:" + nm, J().s("formulation", nm).n("block", b).s("family", g.family).n("n", n).n("iters", o.iters).n("reported", o.res).n("true", fo.tv).n("levels", o.levels)); };
+    auto guard = [&](const std::string &nm, auto fn) { try { fn(); } catch (const std::exception &e) { out[nm].threw = true; bool unit_threw = unit && unit->count(nm) && unit->at(nm).threw;
+        if (!unit_threw) c.fail(nm + sfx + ":exception", e.what()); } };
+    // scalar reference formulation
+    guard("scalar", [&] { typedef make_solver<AMG_S, solver::fgmres<SB>> S; S::params p; p.precond.coarse_enough = ce * b; p.solver.maxiter = MAXIT; S s(T, p); Out o; o.x.assign(n, 0.0); std::tie(o.iters, o.res) = s(f, o.x); o.levels = nlevels(s.precond()); vf::SolveSpec s0 = sp; s0.must_converge = false;   // point-wise aggregation of a block system is not promised to converge (observed: stalls at 1e-5 on a 4x4 Kronecker system); the property lists the block formulations
+        report("scalar", o, s0); });
+    // block value type through the block_matrix adapter, block vectors
+    guard("block_adapter", [&] { typedef make_solver<AMG_B, solver::fgmres<BB>> S; S::params p; p.precond.coarse_enough = ce; p.solver.maxiter = MAXIT; S s(adapter::block_matrix<Blk>(T), p); Out o; o.x.assign(n, 0.0);
+        auto F = backend::reinterpret_as_rhs<Blk>(f); auto X = backend::reinterpret_as_rhs<Blk>(o.x); std::tie(o.iters, o.res) = s(F, X); o.levels = nlevels(s.precond()); report("block_adapter", o, sp); });
+    // make_block_solver: scalar matrix and scalar vectors in, block solver inside
+    guard("make_block_solver", [&] { typedef make_block_solver<AMG_B, solver::fgmres<BB>> S; S::params p; p.precond.coarse_enough = ce; p.solver.maxiter = MAXIT; S s(T, p); Out o; o.x.assign(n, 0.0); std::tie(o.iters, o.res) = s(f, o.x); o.levels = 0; report("make_block_solver", o, sp); });
+    if (kappa > 0) guard("make_block_solver<bicgstab>", [&] { typedef make_block_solver<AMG_B, solver::bicgstab<BB>> S; S::params p; p.precond.coarse_enough = ce; p.solver.maxiter = MAXIT; S s(T, p); Out o; o.x.assign(n, 0.0); std::tie(o.iters, o.res) = s(f, o.x);
+        vf::SolveSpec s2 = sp; s2.explicit_res = false; s2.kappa = kappa; report("make_block_solver<bicgstab>", o, s2); });
+    // block smoother inside a scalar hierarchy
+    guard("as_block", [&] { typedef make_solver<AMG_ASB, solver::fgmres<SB>> S; S::params p; p.precond.coarse_enough = ce * b; p.precond.coarsening.aggr.block_size = b; p.solver.maxiter = MAXIT; S s(T, p); Out o; o.x.assign(n, 0.0); std::tie(o.iters, o.res) = s(f, o.x); o.levels = nlevels(s.precond()); report("as_block", o, sp); });
+    // scalar coarsening inside a block hierarchy
+    guard("as_scalar", [&] { typedef make_solver<AMG_ASS, solver::fgmres<BB>> S; S::params p; p.precond.coarse_enough = ce; p.precond.coarsening.aggr.block_size = b; p.solver.maxiter = MAXIT; S s(adapter::block_matrix<Blk>(T), p); Out o; o.x.assign(n, 0.0);
+        auto F = backend::reinterpret_as_rhs<Blk>(f); auto X = backend::reinterpret_as_rhs<Blk>(o.x); std::tie(o.iters, o.res) = s(F, X); o.levels = nlevels(s.precond()); report("as_scalar", o, sp); });
+    // hybrid backend: scalar setup, block storage, scalar solver
+    guard("hybrid", [&] { typedef make_solver<AMG_H, solver::fgmres<SB>> S; S::params p; p.precond.coarse_enough = ce * b; p.precond.coarsening.aggr.block_size = b; p.solver.maxiter = MAXIT; S s(T, p); Out o; o.x.assign(n, 0.0); std::tie(o.iters, o.res) = s(f, o.x); o.levels = nlevels(s.precond()); report("hybrid", o, sp); });
+    // Eigen block values
+    guard("eigen_block", [&] { typedef make_solver<AMG_E, solver::fgmres<EB>> S; S::params p; p.precond.coarse_enough = ce; p.solver.maxiter = MAXIT; S s(adapter::block_matrix<EBlk>(T), p); Out o; o.x.assign(n, 0.0);
+        auto F = backend::reinterpret_as_rhs<EBlk>(f); auto X = backend::reinterpret_as_rhs<EBlk>(o.x); std::tie(o.iters, o.res) = s(F, X); o.levels = nlevels(s.precond()); report("eigen_block", o, sp); });
+    return out;
+}
+
 static void sub_solves() {
-    long N = vf::tier(60, 800); const size_t MAXIT = 300;
+    long N = vf::tier(60, 800);
     for (long idx = 0; idx < N; ++idx) {
         if (!vf::selected("solves", idx)) continue;
         Rng r(vf::case_seed("solves", idx)); bool small = idx % 3 == 0; G5 g = gen_g5(r, idx, small ? 40 : 150, small ? (int)(560 / b) : (vf::thorough() ? 2500 : 900)); const Csr<double> &A = g.A; size_t n = A.n;
         std::vector<double> f = vf::random_vector(n, r); int ce = (int)r.range(8, 40);
         Case c("solves", idx, J().n("block", b).s("family", g.family).n("cells", g.cells).n("n", n).n("nnz", A.nnz()).bl("incomplete_blocks", g.incomplete).n("coarse_enough", ce).n("threads", omp_get_max_threads()));
-        vf::SolveSpec sp; sp.maxiter = MAXIT; sp.explicit_res = true;
-        double kappa = n <= 600 ? vf::kappa2(A) : 0;
-        auto T = A.tie(); size_t maxlev = 0;
-        auto report = [&](const std::string &nm, const Out &o, const vf::SolveSpec &s) { double tv = 0; vf::check_solution(c, nm, A, f, o.x, o.iters, o.res, s, &tv); maxlev = std::max(maxlev, o.levels); vf::obs_add("formulations_seen", nm); vf::obs_sum("solves");
-            vf::sample("solves:" + nm, J().s("formulation", nm).n("block", b).s("family", g.family).n("n", n).n("iters", o.iters).n("reported", o.res).n("true", tv).n("levels", o.levels)); };
-        auto guard = [&](const std::string &nm, auto fn) { try { fn(); } catch (const std::exception &e) { c.fail(nm + ":exception", e.what()); } };
-        // scalar reference formulation
-        guard("scalar", [&] { typedef make_solver<AMG_S, solver::fgmres<SB>> S; S::params p; p.precond.coarse_enough = ce * b; p.solver.maxiter = MAXIT; S s(T, p); Out o; o.x.assign(n, 0.0); std::tie(o.iters, o.res) = s(f, o.x); o.levels = nlevels(s.precond()); vf::SolveSpec s0 = sp; s0.must_converge = false;   // point-wise aggregation of a block system is not promised to converge (observed: stalls at 1e-5 on a 4x4 Kronecker system); the property lists the block formulations
-            report("scalar", o, s0); });
-        // block value type through the block_matrix adapter, block vectors
-        guard("block_adapter", [&] { typedef make_solver<AMG_B, solver::fgmres<BB>> S; S::params p; p.precond.coarse_enough = ce; p.solver.maxiter = MAXIT; S s(adapter::block_matrix<Blk>(T), p); Out o; o.x.assign(n, 0.0);
-            auto F = backend::reinterpret_as_rhs<Blk>(f); auto X = backend::reinterpret_as_rhs<Blk>(o.x); std::tie(o.iters, o.res) = s(F, X); o.levels = nlevels(s.precond()); report("block_adapter", o, sp); });
-        // make_block_solver: scalar matrix and scalar vectors in, block solver inside
-        guard("make_block_solver", [&] { typedef make_block_solver<AMG_B, solver::fgmres<BB>> S; S::params p; p.precond.coarse_enough = ce; p.solver.maxiter = MAXIT; S s(T, p); Out o; o.x.assign(n, 0.0); std::tie(o.iters, o.res) = s(f, o.x); o.levels = 0; report("make_block_solver", o, sp); });
-        if (kappa > 0) guard("make_block_solver<bicgstab>", [&] { typedef make_block_solver<AMG_B, solver::bicgstab<BB>> S; S::params p; p.precond.coarse_enough = ce; p.solver.maxiter = MAXIT; S s(T, p); Out o; o.x.assign(n, 0.0); std::tie(o.iters, o.res) = s(f, o.x);
-            vf::SolveSpec s2 = sp; s2.explicit_res = false; s2.kappa = kappa; report("make_block_solver<bicgstab>", o, s2); });
-        // block smoother inside a scalar hierarchy
-        guard("as_block", [&] { typedef make_solver<AMG_ASB, solver::fgmres<SB>> S; S::params p; p.precond.coarse_enough = ce * b; p.precond.coarsening.aggr.block_size = b; p.solver.maxiter = MAXIT; S s(T, p); Out o; o.x.assign(n, 0.0); std::tie(o.iters, o.res) = s(f, o.x); o.levels = nlevels(s.precond()); report("as_block", o, sp); });
-        // scalar coarsening inside a block hierarchy
-        guard("as_scalar", [&] { typedef make_solver<AMG_ASS, solver::fgmres<BB>> S; S::params p; p.precond.coarse_enough = ce; p.precond.coarsening.aggr.block_size = b; p.solver.maxiter = MAXIT; S s(adapter::block_matrix<Blk>(T), p); Out o; o.x.assign(n, 0.0);
-            auto F = backend::reinterpret_as_rhs<Blk>(f); auto X = backend::reinterpret_as_rhs<Blk>(o.x); std::tie(o.iters, o.res) = s(F, X); o.levels = nlevels(s.precond()); report("as_scalar", o, sp); });
-        // hybrid backend: scalar setup, block storage, scalar solver
-        guard("hybrid", [&] { typedef make_solver<AMG_H, solver::fgmres<SB>> S; S::params p; p.precond.coarse_enough = ce * b; p.precond.coarsening.aggr.block_size = b; p.solver.maxiter = MAXIT; S s(T, p); Out o; o.x.assign(n, 0.0); std::tie(o.iters, o.res) = s(f, o.x); o.levels = nlevels(s.precond()); report("hybrid", o, sp); });
-        // Eigen block values
-        guard("eigen_block", [&] { typedef make_solver<AMG_E, solver::fgmres<EB>> S; S::params p; p.precond.coarse_enough = ce; p.solver.maxiter = MAXIT; S s(adapter::block_matrix<EBlk>(T), p); Out o; o.x.assign(n, 0.0);
-            auto F = backend::reinterpret_as_rhs<EBlk>(f); auto X = backend::reinterpret_as_rhs<EBlk>(o.x); std::tie(o.iters, o.res) = s(F, X); o.levels = nlevels(s.precond()); report("eigen_block", o, sp); });
+        double kappa = n <= 600 ? vf::kappa2(A) : 0; size_t maxlev = 0;
+        FMap unit = solve_all(c, g, A, f, ce, kappa, "", nullptr, maxlev);
+        // The same system with the MATRIX multiplied by 2^j (coefficients far below / above 1, e.g. SI units); the right-hand side is kept so
+        // that ||f|| stays away from the solvers' absolute zero-rhs threshold.  A_j x_j = f has x_j = 2^-j x exactly representable, and the
+        // harness checks x_j against ITS OWN rescaled copy of the scalar system.
+        if (small) for (int j : {-30, -60, 30}) { Csr<double> Aj = A; for (auto &v : Aj.val) v = std::ldexp(v, j); size_t ml = 0;
+            solve_all(c, g, Aj, f, ce, kappa, "@2^" + std::to_string(j), &unit, ml); vf::obs_add("matrix_scalings_seen", "2^" + std::to_string(j)); }
         if (maxlev >= 2) c.nontrivial(); vf::obs_max("max_levels", (double)maxlev);
     }
 }
